@@ -182,6 +182,41 @@ func c07Readout(l c07Loaded) (kind, msg string, mdOK bool) {
 				kind, msg = "panic", fmt.Sprintf("reading the stream returned by %s.Load panicked: %v", cs.Loader, p)
 			}
 		}()
+		if strings.HasPrefix(cs.Drain, "zero-reads@") {
+			// a consumer that now and then calls Read with an empty buffer (legal: returns 0, nil or the
+			// pending error) between reads of k bytes
+			var k int
+			fmt.Sscanf(cs.Drain, "zero-reads@%d", &k)
+			if k < 1 {
+				k = 1
+			}
+			buf := make([]byte, k)
+			bounded = true
+			limit := int64(len(l.data)) + 1<<16
+			for calls := 0; ; calls++ {
+				if calls%3 == 0 {
+					if n0, e0 := l.res.Stream.Read(buf[:0]); n0 != 0 {
+						kind, msg = "bytes", fmt.Sprintf("Read with an empty buffer returned %d bytes", n0)
+						return
+					} else if e0 != nil && e0 != io.EOF {
+						rerr = e0
+						return
+					}
+				}
+				n, e := l.res.Stream.Read(buf)
+				got = append(got, buf[:n]...)
+				if int64(len(got)) > limit || calls > 4*len(l.data)+1000 {
+					bounded = false
+					return
+				}
+				if e != nil {
+					if e != io.EOF {
+						rerr = e
+					}
+					return
+				}
+			}
+		}
 		if strings.HasPrefix(cs.Drain, "copy@") {
 			var k int
 			fmt.Sscanf(cs.Drain, "copy@%d", &k)
@@ -358,7 +393,8 @@ func runC07(r *core.Run) {
 					if k%8 == 0 {
 						extras = append(extras, extraUnit{ji, cut, l, "seek", "os.File"})
 					}
-					extras = append(extras, extraUnit{ji, cut, l, "drain", fmt.Sprintf("copy@%d", rg.Intn(64))}, extraUnit{ji, cut, l, "bufio", core.Pick(rg, []string{"16", "4096", "65536"})})
+					extras = append(extras, extraUnit{ji, cut, l, "drain", fmt.Sprintf("copy@%d", rg.Intn(64))}, extraUnit{ji, cut, l, "bufio", core.Pick(rg, []string{"16", "4096", "65536"})},
+						extraUnit{ji, cut, l, "drain", fmt.Sprintf("zero-reads@%d", core.Pick(rg, []int{1, 5, 4096}))})
 				}
 			}
 		}
@@ -503,6 +539,25 @@ func runC07(r *core.Run) {
 				}
 			}
 		}
+	}
+	// needed structures behind, or consisting of, several MiB (up to 17 MiB consumed before the
+	// metadata is complete): complete, and cut inside the big structure
+	{
+		big := bigFiles(r.Seed)
+		core.ParallelFor(len(big), 4, func(i int) {
+			f := big[i]
+			for _, l := range []string{loaderFor(f.Truth.Format), "autometa"} {
+				for _, cut := range []int{len(f.Bytes), len(f.Bytes) / 2} {
+					cs := c07Case{Seed: f.Name, Cut: cut, Terminal: []string{"eof", "error"}[(i+cut)%2], Schedule: "all", Loader: l, ReadBuf: 32768}
+					kind, msg, _ := c07Readout(c07Load(f.Bytes, cs))
+					r.AddEvals(1)
+					if kind != "" {
+						r.Violate("prefix", l+"/"+kind+"/big", msg, map[string]any{"note": "input = bigFiles(VERIF_SEED)[i] of harness/props/corpus.go", "i": i, "name": f.Name, "loader": l, "cut": cut})
+					}
+				}
+			}
+		})
+		r.Obs("multi_megabyte_files", len(big))
 	}
 	r.Obs("outcomes_terminal_x_metadata_success", outcomes)
 	r.Obs("seed_files", len(jobs))
